@@ -554,12 +554,15 @@ def run_c14(w: World, rep: Report):
     depend(rep, w, 'rules_c02', ('C02.R1', 'C02.R2', 'C02.R3', 'C02.R4', 'C02.R5'), 'C14.TD2',
            'the signature instructions the delegation locks rely on (allowed flags per bit, one message builder, length '
            'guards, result mapping - C02.R2-R5)', floor=10)
-    depend(rep, w, 'rules_c09', ('C09.R2', 'C09.R3'), 'C14.TD9',
+    depend(rep, w, 'rules_c09', ('C09.R1', 'C09.R2', 'C09.R3'), 'C14.TD9',
            'the clock thresholds (flags) configured for a run hold inside DEF/CALL, IF, TRY and LOOP bodies too - the time '
            'checks of these locks run inside such bodies (C09.R2/R3 re-evaluated)', floor=16)
     depend(rep, w, 'rules_c19', ('C19.R2',), 'C14.TD19',
            'the verdict for a witness does not depend on what the process verified before: no instruction writes '
            'process-global state (C19.R2 re-evaluated)', floor=10)
+    depend(rep, w, 'rules_c06', ('C06.R9',), 'C14.TD6',
+           'the chain lock gates further delegation with `@c and`: AND pads with zero bytes, so a may-delegate byte of x00 '
+           'stays false whatever the length of the witness-supplied marker (C06.R9 re-evaluated)', floor=3)
     from .rules_c04 import _no_memo_in_tree_classes
     _no_memo_in_tree_classes(w, rep, rule='C14.T12', markers=('preimage',), floor=1)
     depend(rep, w, 'rules_c08', ('C08.R1',), 'C14.TD8',
@@ -785,6 +788,16 @@ def run_c15(w: World, rep: Report):
     depend(rep, w, 'rules_c19', ('C19.R2',), 'C15.TD19',
            'the verdict for a witness does not depend on what the process verified before: no instruction writes '
            'process-global state (C19.R2 re-evaluated)', floor=10)
+    # the PTLC claim key is x + t for the tweak scalar the caller gives (the lock was built from t*G of that very scalar):
+    # the witness builder may not re-clamp or otherwise rewrite it
+    rep.rule('C15.T14', 'make_ptlc_witness adds the tweak scalar as given (no clamp_scalar / hashing of the parameter)', floor=1)
+    pw = w.repo.func('tools', 'make_ptlc_witness')
+    rewr = [c for c in ast.walk(pw.node) if isinstance(c, ast.Call) and isinstance(c.func, ast.Name) and
+            c.func.id in ('clamp_scalar', 'sha256', 'derive_key_from_seed', 'H_small', 'H_big') and
+            any(isinstance(y, ast.Name) and y.id == 'tweak_scalar' for a in c.args for y in ast.walk(a))]
+    rep.check('C15.T14', 'tools.make_ptlc_witness|tweak-scalar-used-as-given', not rewr, line=rewr[0].lineno if rewr else pw.node.lineno,
+              file=REL, why='' if not rewr else f'`{ast.unparse(rewr[0])[:40]}` rewrites the tweak: the witness signs under x + t\' while '
+              f'the lock holds X + t*G, so the builder\'s own claim witness is rejected for tweaks that are not already in that form')
     no_falsy_default_on_numbers(w, rep, 'C15.T12')
     exact_number_formatting(w, rep, 'C15.T13')
     depend(rep, w, 'rules_c11', ('C11.R8',), 'C15.TD11',
@@ -946,8 +959,25 @@ def c05_builders(w: World, rep: Report):
                         out.add(h.resolved_text.replace(' ', ''))
         return out
     rep.rule('C05.R5', 'the taproot witness builders sign what the lock checks: sigflags reach the lock\'s check and the '
-             'witness\'s get_message, a hand-made signature carries its flag byte', floor=2)
+             'witness\'s get_message, a hand-made signature carries its flag byte', floor=3)
     t3_sigflags(w, rep, 'C05.R5', 'make_taproot_lock', PAIRS['make_taproot_lock'])
+    # a flag byte is one unsigned byte: the signed minimal codec int_to_bytes gives two bytes from 0x80 on
+    tm5 = w.repo.module('tools')
+    bad5 = []
+    for fn in [f for f in ast.walk(tm5.tree) if isinstance(f, ast.FunctionDef) and
+               any(a.arg == 'sigflags' for a in f.args.args + f.args.kwonlyargs)]:
+        tainted = {'sigflags'}
+        for _ in range(3):
+            for st in ast.walk(fn):
+                if isinstance(st, ast.Assign) and any(isinstance(y, ast.Name) and y.id in tainted for y in ast.walk(st.value)):
+                    tainted |= {t.id for t in st.targets if isinstance(t, ast.Name)}
+        for c in ast.walk(fn):
+            if isinstance(c, ast.Call) and isinstance(c.func, ast.Name) and c.func.id == 'int_to_bytes' and \
+                    any(isinstance(y, ast.Name) and y.id in tainted for a in c.args for y in ast.walk(a)):
+                bad5.append((fn.name, c.lineno, ast.unparse(c)[:40]))
+    rep.check('C05.R5', 'tools|flag-byte-encoded-unsigned', not bad5, line=bad5[0][1] if bad5 else None, file=REL,
+              why='' if not bad5 else f'{bad5[0][0]}: `{bad5[0][2]}` encodes the sigflags with the signed minimal codec: flags with bit '
+              f'0x80 set become two bytes, the signature item is 66 bytes long and every lock rejects the builder\'s own witness')
     signed_message_from_vm(w, rep, 'C05.R6')
     sigfields_plumbed(w, rep, 'C05.R7')
     a, b = root_exprs('make_taproot_lock'), root_exprs(lock)
